@@ -572,3 +572,19 @@ PROPS = {
         "gen_facts": ["Gen.Bridge.cursorGuarded, fetchErrors, eventCases, titleCleaned"],
     },
 }
+
+# scenarios added after round 8 (appended to the rule texts above)
+_ADDED = {
+    "C04": "30..60 bugs pulled by a second go-git replica (one packfile) and read by eight goroutines at once",
+    "C05": "a directed prefix (concurrent edit, other bugs, pull) with an oracle on every merge commit a pull writes; new processes whose "
+           "2..8 goroutines call the clock for the first time at the same moment (12..40 rounds)",
+    "C14": "remote names where one is a prefix of another; a removal during which the n-th RemoveRef fails, then asked for again",
+    "C15": "host tags the remote has and the host deleted or moved locally; one repository handle kept over create / remove all / "
+           "git gc --prune=now / create, then git fsck --strict",
+    "C17": "with a user and valid arguments the payload's operation fields are selected, a previously stored blob is sent as files half of "
+           "the time, and exactly the operations the mutation stands for, carrying those files, must have been recorded",
+    "C18": "a first-resolves phase (two bugs nobody loaded, resolved, edited and partly committed by all workers at once); the edits of the "
+           "bursts are acknowledged edits as well",
+}
+for _p, _t in _ADDED.items():
+    PROPS[_p]["rule"] += "; also: " + _t
